@@ -171,6 +171,8 @@ class FakeSocket:
         self._send_calls = 0
         self._next_arrival = 0.0
         self.closed_at: Optional[float] = None
+        self.fin_arrived_at: Optional[float] = None
+        self.rst_arrived_at: Optional[float] = None
         self.sent_total = 0
         self.wakers: List[Callable[[], None]] = []
         # (seq, now, nbytes_after) of every successful send, for offset->seq mapping
@@ -319,9 +321,13 @@ class FakeSocket:
 
     def _arrive_fin(self) -> None:
         self._rx_fin = True
+        if self.fin_arrived_at is None:
+            self.fin_arrived_at = self.sim.now
         self._wake()
 
     def _arrive_rst(self) -> None:
+        if self.rst_arrived_at is None:
+            self.rst_arrived_at = self.sim.now
         self._rx_err = errno.ECONNRESET
         self._tx_err = errno.ECONNRESET
         self._rx.clear()
